@@ -184,7 +184,7 @@ func H_C12_overlap() {
 // a later new path that runs through a projected value down into a list of the receiver
 func H_C12_overlap_deep() {
 	vNewPathMax = 3
-	vC12(vSpec{Depth: 3, Width: 1, Kinds: "mls", KeyAlpha: "ab", KeyMin: 1, KeyMax: 1, StrAlpha: "x", StrMax: 0, NoListInList: true, NoEmptyList: true}, 2, true, false, -1)
+	vC12(vSpec{Depth: 4, Width: 1, Kinds: "mls", KeyAlpha: "ab", KeyMin: 1, KeyMax: 1, StrAlpha: "x", StrMax: 0, NoListInList: true, NoEmptyList: true}, 2, true, false, -1)
 	vNewPathMax = 2
 }
 
